@@ -6,14 +6,14 @@ from corr import logix_common as lc
 from corr import logix_gen as lg
 
 
-def rand_history(rng, tags, nreq, multi=True, invalid=0.15):
+def rand_history(rng, tags, nreq, multi=True, invalid=0.15, class_level=False):
     reqs = []
     for _ in range(nreq):
-        reqs.append(rand_req(rng, tags, multi=multi, invalid=invalid))
+        reqs.append(rand_req(rng, tags, multi=multi, invalid=invalid, class_level=class_level))
     return reqs
 
 
-def rand_req(rng, tags, multi=True, invalid=0.15, budget=None):
+def rand_req(rng, tags, multi=True, invalid=0.15, budget=None, class_level=False):
     t = rng.choice(tags)
     ln, ty = t["len"], t["type"]
     r = rng.random()
@@ -21,7 +21,17 @@ def rand_req(rng, tags, multi=True, invalid=0.15, budget=None):
     if multi and r < 0.08:
         n = rng.randint(1, 6)
         return {"op": "mu", "path": [["c", 2], ["i", 1]],
-                "reqs": [rand_req(rng, tags, multi=False, invalid=invalid) for _ in range(n)]}
+                "reqs": [rand_req(rng, tags, multi=False, invalid=invalid, class_level=class_level) for _ in range(n)]}
+    if r >= 0.97 and class_level:
+        # the class-level instance 0 of a class in use: its static attributes 1 (Revision) and 4 (Optional Attributes)
+        c = rng.choice([2, 2] + [x["addr"][0] for x in tags if x.get("addr")])
+        p = [["c", c], ["i", 0], ["a", rng.choice(lg.CLASS_ATTRS)]]
+        k = rng.random()
+        if k < 0.6:
+            return {"op": "gs", "path": p}
+        if k < 0.8:
+            return {"op": "rt", "path": p, "n": 1}
+        return {"op": "ss", "path": p, "data": [rng.randrange(256) for _ in range(3 if bad else 2)]}
     if r < 0.14 and t.get("addr"):
         c, i, a = t["addr"]
         p = [["c", c], ["i", i], ["a", a]]
@@ -115,7 +125,7 @@ class C03(Suite):
         for k in range(n):
             tags = lg.rand_tags(rng, big=(tier == "thorough"))
             c = {"budget": rng.choice([488, 488, 488, 100, 24, 1000]), "tags": tags,
-                 "reqs": rand_history(rng, tags, rng.randint(1, 40))}
+                 "reqs": rand_history(rng, tags, rng.randint(1, 40), class_level=True)}
             if k % 10 == 0:
                 # every 10th device is created by the simulator's own command-line tag handling (main.py)
                 c["via_main"] = True
